@@ -1,5 +1,6 @@
 import Gallia.Lib.Proto
 import Gallia.Model.Loss
+import Gallia.Model.LossSys
 open Gallia Gallia.Proto Gallia.Loss
 
 /-
@@ -13,6 +14,12 @@ open Gallia Gallia.Proto Gallia.Loss
         client level: at t0 `request(22 f1 90)` with the client's timeout / max_retry; `gap` ms after it ended the same
         request again.
         -> <out1> <t1> <out2> <t2> <conns> <sent>
+
+    S <tr> <maxRetry> <event>*
+        whole execution (Model/LossSys.lean); events: D:<hex> deliver, X:<cut> cut, U up, N down, V:<hex>|V:none serve,
+        A:1|A:0 routing activation answered / lost, T:<ms> advance, R:<hex>:<tmo|none> request, Q:<tmo|none> transport read, C close, K reconnect
+        -> one token per client call (req:<out>:<t_end>:<conns> | closed:<t> | rc:<res>:<t_end>:<conns>), then
+           `wire` <conn>@<t>:<hex>,... and `refused` <n>
 
   tr: tcp-lines | unix-lines | doip | hsfz;  cut: eof | reset | silence
 -/
@@ -92,8 +99,65 @@ def withProto (tr : String) (k : {Q : Type} → Proto Q → String) : String :=
   | "hsfz" => k (hsfzProto hsfzCfg)
   | _ => "bad-op"
 
+open Gallia.LossSys in
+def parseSEv (tok : String) : Option SEv :=
+  match tok.splitOn ":" with
+  | ["D", h] => (parseHex h).map fun b => .peer (.deliver b)
+  | ["X", c] => (parseCut c).map fun k => .peer (.cut k)
+  | ["U"] => some (.peer .up)
+  | ["N"] => some (.peer .down)
+  | ["V", "none"] => some (.peer (.serve none))
+  | ["V", h] => (parseHex h).map fun b => .peer (.serve (some b))
+  | ["A", "1"] => some (.peer (.ra true))
+  | ["A", "0"] => some (.peer (.ra false))
+  | ["T", n] => n.toNat?.map fun ms => .peer (.advance ms)
+  | ["R", h, t] => match parseHex h, parseOptNat t with
+    | some d, some tmo => some (.request d tmo)
+    | _, _ => none
+  | ["Q", t] => (parseOptNat t).map fun tmo => .read tmo
+  | ["C"] => some .close
+  | ["K"] => some .reconnect
+  | _ => none
+
+open Gallia.LossSys in
+def showObs : Obs → String
+  | .req o _ _ t1 n => s!"req:{showOut o}:{t1}:{n}"
+  | .rd r _ _ t1 => s!"rd:{showRes r}:{t1}"
+  | .closed t => s!"closed:{t}"
+  | .rc r _ t1 n => s!"rc:{match r with | .ok => "ok" | .refused => "refused" | .timedOut => "timedout"}:{t1}:{n}"
+
+/-- classification for whole executions: negative responses are exactly three bytes and name the request's service -/
+def clsS (d : Bytes) : Client.Ev :=
+  match d with
+  | [0x7F, 0x22, 0x78] => .pending
+  | [0x7F, 0x22, 0x21] => .busy
+  | [0x7F, 0x22, _] => .negFinal
+  | 0x7F :: _ => .malformed
+  | 0x62 :: 0xF1 :: 0x90 :: _ => .posFinal
+  | _ => .mismatch
+
+open Gallia.LossSys in
+def runS {Q : Type} (P : SProto Q) (mr : Nat) (evs : List SEv) : String :=
+  let c : LossSys.CCfg := { maxRetry := mr, lim := Client.Limits.std }
+  let (s, obs) := LossSys.run P clsS c (evs.length + 1) (Sys.init P) evs []
+  let wire := if s.wire.isEmpty then "-" else ",".intercalate (s.wire.map fun w => s!"{w.1}@{w.2.1}:{hexOrDash w.2.2}")
+  joinSp (obs.map showObs ++ ["wire", wire, "refused", toString s.refusals, "conns", toString s.nconn, "ties", toString s.ties])
+
+open Gallia.LossSys in
+open Gallia.LossSys in
+def stepS (tr : String) (mr : String) (toks : List String) : String :=
+  match mr.toNat?, toks.mapM parseSEv with
+  | some mr, some evs =>
+    (match tr with
+    | "tcp-lines" | "unix-lines" => runS linesS mr evs
+    | "doip" => runS (doipS doipCfg) mr evs
+    | "hsfz" => runS (hsfzS hsfzCfg) mr evs
+    | _ => "bad-op")
+  | _, _ => "bad-op"
+
 def step (line : String) : String :=
   match words line with
+  | "S" :: tr :: mr :: toks => stepS tr mr toks
   | ["T", tr, pre, cut, delta, restart, lostAt, t0, tmo] =>
     match parseHex pre, parseCut cut, parseOptNat delta, restart.toNat?, lostAt.toNat?, t0.toNat?, parseOptNat tmo with
     | some pre, some cut, some delta, some restart, some lostAt, some t0, some tmo =>
